@@ -442,9 +442,9 @@ Definition step_class (w : world) (c : pclass) (pl : bytes) : world * option err
         end)
   | NestedProperty =>
       atomic w (
-        '(id, r1) <- get_u 4 pl ;; '(sl, r2) <- get_s 1 r1 ;; '(sz, r3) <- get_s 1 r2 ;;
+        '(id, r1) <- get_u 4 pl ;; '(sl, r2) <- get_s 1 r1 ;; '(sz, r3) <- get_u 1 r2 ;;
         let payload := snd (read_upto 3 r3) in
-        if negb (Z.eqb (Z.of_nat (length payload)) sz) then Err EAssert else
+        if negb (N.eqb (N.of_nat (length payload)) sz) then Err EAssert else
         e <- lookup_entity w (Z.of_N id) ;; m <- model_of (en_type e) ;;
         '(e', cs) <- nested_apply e m (Z.eqb sl 1) payload ;;
         Ok (log (put w e') cs))
@@ -502,8 +502,8 @@ Definition step (w : world) (p : packet) : world * option error :=
     | Wowp, EntityProperty | Wowp, EntityMethod => atomic w ('(_, r) <- need 8 (pk_payload p) ;; '(_, _) <- binstream r ;; Ok w)
     | Wowp, Position => atomic w ('(_, _) <- need 45 (pk_payload p) ;; Ok w)
     | Wowp, NestedProperty =>
-        atomic w ('(_, r1) <- get_u 4 (pk_payload p) ;; '(_, r2) <- get_s 1 r1 ;; '(sz, r3) <- get_s 1 r2 ;;
-                  if Z.eqb (Z.of_nat (length (snd (read_upto 3 r3)))) sz then Ok w else Err EAssert)
+        atomic w ('(_, r1) <- get_u 4 (pk_payload p) ;; '(_, r2) <- get_s 1 r1 ;; '(sz, r3) <- get_u 1 r2 ;;
+                  if N.eqb (N.of_nat (length (snd (read_upto 3 r3)))) sz then Ok w else Err EAssert)
     | Wowp, _ => (w, None)
     | _, _ => step_class w c (pk_payload p)
     end
